@@ -698,3 +698,43 @@ func (w *World) forAsRangeStmt(fs *ast.ForStmt, x ast.Expr) *ast.RangeStmt {
 	w.forOfRange[r] = fs
 	return r
 }
+
+// bodyMustReach: in the control-flow graph of one function body, every path from the entry
+// to an exit passes a node containing target - except paths that leave through a branch
+// edge accepted by skip. Range statements are matched at their loop head (the range
+// expression is evaluated whatever the collection holds).
+func bodyMustReach(g *cfg.CFG, target func(ast.Node) bool, skip func(cond ast.Expr, pol bool) bool) bool {
+	if g == nil || len(g.Blocks) == 0 {
+		return false
+	}
+	seen := map[*cfg.Block]bool{}
+	ok := true
+	var visit func(b *cfg.Block)
+	visit = func(b *cfg.Block) {
+		if !ok || seen[b] {
+			return
+		}
+		seen[b] = true
+		if rs, isRange := b.Stmt.(*ast.RangeStmt); isRange && (b.Kind == cfg.KindRangeLoop || b.Kind == cfg.KindRangeBody) && target(rs) {
+			return
+		}
+		for _, n := range b.Nodes {
+			if containsNode(n, target) {
+				return
+			}
+		}
+		if len(b.Succs) == 0 {
+			ok = false
+			return
+		}
+		cond := blockCond(b)
+		for i, s := range b.Succs {
+			if cond != nil && skip != nil && skip(cond, i == 0) {
+				continue
+			}
+			visit(s)
+		}
+	}
+	visit(g.Blocks[0])
+	return ok
+}
